@@ -66,7 +66,7 @@ func zzGap(name string, unit time.Duration) {
 // every notification is followed by a run no later than the remaining interval.
 func VerifC13_Reload() {
 	interval := zzIntervals[nd.Choice("interval", len(zzIntervals))]
-	rl := &reloadHAProxy{interval: interval}
+	rl := ReloadHAProxyRateLimiter(interval)
 	q := &zzItemQ{minGap: int64(interval), id: "reload"}
 	k := nd.Param("K", 3)
 	for i := 0; i < k; i++ {
@@ -91,15 +91,21 @@ func VerifC13_Reload() {
 	nd.Reach("end")
 }
 
-var zzDeltas = []time.Duration{1, 20 * time.Millisecond, 500 * time.Millisecond, 2 * time.Second}
+// --rate-limit-update values and the period 1/rate each one stands for (written down
+// independently of the constructor under test; the documented range is 0.05..10, two values
+// beyond it exercise very short periods)
+var zzRates = []float64{1e9, 50, 2, 0.5, 0.4, 0.3, 10, 0.05}
+var zzDeltas = []time.Duration{1, 20 * time.Millisecond, 500 * time.Millisecond, 2 * time.Second, 2500 * time.Millisecond, 3333333333, 100 * time.Millisecond, 20 * time.Second}
 var zzWaits = []time.Duration{0, 10 * time.Millisecond, 200 * time.Millisecond, 5 * time.Second}
 
 // VerifC13_Reconcile: two reconciliations of the same kind keep 1/rate spacing; the limiter is
 // shared by the partial and the full item, as in the reconciler.
 func VerifC13_Reconcile() {
-	delta := zzDeltas[nd.Choice("delta", len(zzDeltas))]
+	nrates := nd.Param("RATES", len(zzRates))
+	ri := nd.Choice("delta", nrates)
+	delta := zzDeltas[ri]
 	wait := zzWaits[nd.Choice("wait", len(zzWaits))]
-	rl := &ingressReconciler[bool]{delta: delta, wait: wait}
+	rl := IngressReconcilerRateLimiter[bool](zzRates[ri], wait)
 	qs := [2]*zzItemQ{{minGap: int64(delta), id: "partial"}, {minGap: int64(delta), id: "full"}}
 	unit := delta
 	if wait > unit {
